@@ -386,6 +386,14 @@ func decodeDohGet(raw string) ([]byte, error) {
 
 func peerTLS(tr *vtrace.T, dir string) {
 	ca1, ca2 := newCA("verif ca one"), newCA("verif ca two")
+	// a root of "the platform's trust store": Go reads the store once per process, at the first verification that
+	// needs it - nothing has been verified yet
+	caS := newCA("verif system root")
+	sysFile := filepath.Join(dir, "system-roots.pem")
+	os.WriteFile(sysFile, caS.pem, 0o644)
+	os.MkdirAll(filepath.Join(dir, "no-certs"), 0o755)
+	os.Setenv("SSL_CERT_FILE", sysFile)
+	os.Setenv("SSL_CERT_DIR", filepath.Join(dir, "no-certs"))
 	caFile := filepath.Join(dir, "ca1.pem")
 	os.WriteFile(caFile, ca1.pem, 0o644)
 	const name = "dns.peer.test"
@@ -400,7 +408,9 @@ func peerTLS(tr *vtrace.T, dir string) {
 	certs["expired"] = mustPair(c, k)
 	c, k = leaf(name, nil, false, false)
 	certs["selfsigned"] = mustPair(c, k)
-	for _, kind := range []string{"valid", "wrongname", "otherca", "expired", "selfsigned"} {
+	c, k = leaf(name, caS, false, false)
+	certs["sysca"] = mustPair(c, k)
+	for _, kind := range []string{"valid", "wrongname", "otherca", "expired", "selfsigned", "sysca"} {
 		srv := newTLSSrv(certs[kind])
 		for _, scheme := range []string{"tls", "tls+pipeline", "https", "quic"} {
 			for _, caSet := range []bool{true, false} {
@@ -520,7 +530,8 @@ func peerTLS(tr *vtrace.T, dir string) {
 	os.WriteFile(filepath.Join(dir, "srv.key"), sk, 0o600)
 	cc1, ck1 := leaf("client", ca1, false, true)
 	cc2, ck2 := leaf("client", ca2, false, true)
-	clientCerts := map[string][]tls.Certificate{"none": nil, "fromca": {mustPair(cc1, ck1)}, "otherca": {mustPair(cc2, ck2)}}
+	cc3, ck3 := leaf("client", caS, false, true)
+	clientCerts := map[string][]tls.Certificate{"none": nil, "fromca": {mustPair(cc1, ck1)}, "otherca": {mustPair(cc2, ck2)}, "sysca": {mustPair(cc3, ck3)}}
 	for _, verify := range []bool{true, false} {
 		in := &inst{name: fmt.Sprintf("c17-l%v", verify), ups: map[string]*fakeUp{}, ports: map[string]int{}, tr: tr}
 		cfg := &router.Config{}
@@ -539,7 +550,7 @@ func peerTLS(tr *vtrace.T, dir string) {
 			panic(err)
 		}
 		for _, lst := range []string{"tls", "https", "quic"} {
-			for _, ck := range []string{"none", "fromca", "otherca"} {
+			for _, ck := range []string{"none", "fromca", "otherca", "sysca"} {
 				conf := &tls.Config{InsecureSkipVerify: true, Certificates: clientCerts[ck]}
 				served := peerClient(in, lst, conf)
 				tr.Emit("serve", "lst", lst, "ccert", ck, "verify", verify, "served", served)
